@@ -90,9 +90,9 @@ def run(tier, seed, replay=None):
         paths, covered = vlib.cover_paths(nodes, edges, inits, max_len=40, seed=seed)
         log("[A] graph %d states / %d edges -> %d cover paths (%d edges covered)" % (len(nodes), len(edges), len(paths), covered))
         rnd = random.Random(seed)
-        plan = [("mem", len(paths) if thorough else 1500), ("file", 400 if thorough else 40)]
+        plan = [("mem", 2, len(paths) if thorough else 1500), ("file", 2, 400 if thorough else 40)]
         replayed = 0
-        for backend, count in plan:
+        for backend, capu, count in plan:
             sel = paths if count >= len(paths) else rnd.sample(paths, count)
             steps = [[nodes[n]["last"] for n in p[1:]] for p in sel]
             trace = sc.path("replay-%s.ndjson" % backend)
@@ -118,9 +118,9 @@ def run(tier, seed, replay=None):
                 samples.append({"kind": "lock-step behaviour (PipeRing actions)", "steps": steps[0][:12]})
             validate_trace(sc, verdict, trace, 2 * UNIT[backend], "replay-" + backend, stats)
         # ---------------- (B) code -> spec: free-running goroutines
-        free = [("mem", 1, 4096), ("mem", 4097, 8192), ("mem", 12288, 12288)]
+        free = [("mem", 1, 4096), ("mem", 4097, 8192), ("mem", 12288, 12288), ("mem", 20000, 20480)]
         if thorough:
-            free += [("mem", 65536, 65536), ("file", 1, 4 * 1024 * 1024)]
+            free += [("mem", 65536, 65536), ("file", 1, 4 * 1024 * 1024), ("file", 9 * 1024 * 1024, 12 * 1024 * 1024)]
         nruns = 0
         for backend, size, cap in free:
             trace = sc.path("free-%s-%d.ndjson" % (backend, cap))
